@@ -58,4 +58,14 @@ VARIANTS = [
       "        f_evals = np.array([LagrangeBasis.__call__(self, coord) for coord in coords])\n", "C10.D10", nth=2),
     V("C10-n32-plain-spline-integrates-its-delegate", "neutral", "                f_evals = np.array([self(coord) for coord in coords])\n",
       "                f_evals = np.array([self.spline(coord) for coord in coords])\n", nth=1),
+    # generic state rules (sa/statecheck.py)
+    V("C10-b50-collocation-matrix-memo-across-grids", "break", None, None, "C10.S2", edits=[
+        {"file": "Hierarchization.py", "old": "        self.grid = grid\n\n    def __call__", "new": "        self.grid = grid\n        self.matrix_memo = {}\n\n    def __call__"},
+        {"file": "Hierarchization.py", "old": "        matrix = np.empty((numPoints[d], numPoints[d]))\n        for i in range(numPoints[d]):\n            for j in range(numPoints[d]):\n                matrix[i, j] = self.grid.get_basis(d, j)(self.grid.get_coordinates_dim(d)[i])\n",
+         "new": "        if (d, numPoints[d]) not in self.matrix_memo:\n            matrix = np.empty((numPoints[d], numPoints[d]))\n            for i in range(numPoints[d]):\n                for j in range(numPoints[d]):\n                    matrix[i, j] = self.grid.get_basis(d, j)(self.grid.get_coordinates_dim(d)[i])\n            self.matrix_memo[(d, numPoints[d])] = matrix\n        matrix = self.matrix_memo[(d, numPoints[d])]\n"}]),
+    V("C10-n50-collocation-matrix-memo-per-call", "neutral", None, None, edits=[
+        {"file": "Hierarchization.py", "old": "        self.grid = grid\n\n    def __call__", "new": "        self.grid = grid\n        self.matrix_memo = {}\n\n    def __call__"},
+        {"file": "Hierarchization.py", "old": "        matrix = np.empty((numPoints[d], numPoints[d]))\n        for i in range(numPoints[d]):\n            for j in range(numPoints[d]):\n                matrix[i, j] = self.grid.get_basis(d, j)(self.grid.get_coordinates_dim(d)[i])\n",
+         "new": "        if (d, numPoints[d]) not in self.matrix_memo:\n            matrix = np.empty((numPoints[d], numPoints[d]))\n            for i in range(numPoints[d]):\n                for j in range(numPoints[d]):\n                    matrix[i, j] = self.grid.get_basis(d, j)(self.grid.get_coordinates_dim(d)[i])\n            self.matrix_memo[(d, numPoints[d])] = matrix\n        matrix = self.matrix_memo[(d, numPoints[d])]\n"},
+        {"file": "Hierarchization.py", "old": "        self.grid = grid\n        self.dim = len(numPoints)\n", "new": "        self.grid = grid\n        self.matrix_memo = {}\n        self.dim = len(numPoints)\n"}]),
 ]
